@@ -375,6 +375,11 @@ class OrderedMultiDict(dict, MutableMappingSequence):
 
         kvlist = _insert_arg_helper(args)
 
+        # Resolve the index the way list.insert() does once, so that
+        # several pairs given with a negative index stay together.
+        if index < 0:
+            index = max(0, len(self.__items) + index)
+
         for (key, value) in kvlist:
             self.__items.insert(index, (key, value))
             index += 1
